@@ -97,6 +97,9 @@ def jsonable(x: Any) -> Any:
     return x
 
 
+TRUTH_FROM_FRAME = False  # C03: take the charge content from the cluster table, not from the (possibly cached) array view
+
+
 def snap(det) -> dict:
     """Public-API snapshot of the five array buckets (None = empty)."""
     out: dict[str, Any] = {}
@@ -110,9 +113,28 @@ def snap(det) -> dict:
             out["photon"] = None
     except Exception:
         out["photon"] = None
+    truth = None
+    if TRUTH_FROM_FRAME:
+        # what the detector holds, computed from the cluster table itself (before the array view is read): the view may be
+        # a cached conversion
+        try:
+            fr = det.charge._frame
+            if len(fr):
+                geo = det.geometry
+                truth = np.zeros((geo.row, geo.col))
+                iy = np.floor_divide(fr["position_ver"].to_numpy(dtype=float), geo.pixel_vert_size).astype(int)
+                ix = np.floor_divide(fr["position_hor"].to_numpy(dtype=float), geo.pixel_horz_size).astype(int)
+                num = fr["number"].to_numpy(dtype=float)
+                ok = (iy >= 0) & (iy < geo.row) & (ix >= 0) & (ix < geo.col)
+                np.add.at(truth, (iy[ok], ix[ok]), num[ok])
+        except Exception:
+            truth = None
     try:
         out["charge"] = np.array(det.charge.array)
         out["charge_frame_len"] = len(det.charge.frame)
+        if truth is not None:
+            out["charge_view"] = out["charge"]
+            out["charge"] = truth
     except Exception:
         out["charge"] = None
     for name in ("pixel", "signal", "image"):
@@ -203,6 +225,14 @@ def _write(det, bucket: str, arr) -> None:
             det.pixel.array = det.pixel.array + arr
         except ValueError:
             det.pixel.array = arr
+    elif bucket == "clusters*2":
+        # a charge-transfer style model that edits the existing clusters in place
+        num = det.charge.get_frame_values("number")
+        if len(num):
+            det.charge.set_frame_values("number", [float(x) * 2.0 for x in num])
+    elif bucket == "pixel=charge":
+        # a collection model that hands the charge array over by assignment: the two containers then share one array object
+        det.pixel.array = det.charge.array
     elif bucket == "signal":
         det.signal.array = arr
     elif bucket == "image":
